@@ -251,13 +251,40 @@ func mutations() []mutation {
 			os.WriteFile(p, []byte("bogus:ok.example\n"), 0o644)
 			router(d)["domainSets"].([]any)[0].(doc)["path"] = p
 		}},
+		// proxy server address forms of a client: one endpoint, or a TCP and a UDP address, each required by the
+		// network that is enabled and by no other
+		{"client-split-addresses", "accept", "tcpAddress + udpAddress instead of endpoint", func(d doc, _ string) {
+			c := cli(d, 2)
+			ep := c["endpoint"]
+			delete(c, "endpoint")
+			c["tcpAddress"], c["udpAddress"] = ep, ep
+		}},
+		{"client-no-address", "reject", "a proxy client needs a server address", func(d doc, _ string) { delete(cli(d, 2), "endpoint") }},
+		{"client-endpoint-and-tcp-address", "reject", "endpoint and split addresses conflict", func(d doc, _ string) { cli(d, 2)["tcpAddress"] = cli(d, 2)["endpoint"] }},
+		{"client-endpoint-and-udp-address", "reject", "endpoint and split addresses conflict", func(d doc, _ string) { cli(d, 2)["udpAddress"] = cli(d, 2)["endpoint"] }},
+		{"client-udp-enabled-without-udp-address", "reject", "an enabled network needs its server address", func(d doc, _ string) {
+			c := cli(d, 2)
+			c["tcpAddress"] = c["endpoint"]
+			delete(c, "endpoint")
+		}},
+		{"client-tcp-enabled-without-tcp-address", "reject", "an enabled network needs its server address", func(d doc, _ string) {
+			c := cli(d, 2)
+			c["udpAddress"] = c["endpoint"]
+			delete(c, "endpoint")
+		}},
+		{"client-udp-only-with-udp-address", "accept", "a UDP-only client needs no TCP address", func(d doc, _ string) {
+			d["clients"] = append(d["clients"].([]any), doc{"name": "c-udponly", "protocol": "socks5", "udpAddress": cli(d, 2)["endpoint"], "enableUDP": true, "mtu": 1500})
+		}},
+		{"client-tcp-only-with-tcp-address", "accept", "a TCP-only client needs no UDP address", func(d doc, _ string) {
+			d["clients"] = append(d["clients"].([]any), doc{"name": "c-tcponly", "protocol": "socks5", "tcpAddress": cli(d, 2)["endpoint"], "enableTCP": true})
+		}},
 	}
 	return ms
 }
 
 func runLoad(e *core.Env) {
 	rec := e.Rec
-	rec.Rule("load: one case = valid template (5 servers of every protocol family, 3 clients, a client group, a resolver, router with sets) + one labelled mutation (or two independent accept-mutations) touching a documented invariant: key lengths, SS2022 NAT timeout vs replay window (also legacy field), MTU 1279/1280, batch sizes 1024/1025, channel capacity 63/64, unknown protocol/mode/policy/field, dangling and duplicate names, tunnel address forms; loaded with the real Config.Manager after strict decoding; class = (mutation, expectation, outcome)")
+	rec.Rule("load: one case = valid template (5 servers of every protocol family, 3 clients, a client group, a resolver, router with sets) + one labelled mutation (or two independent accept-mutations) touching a documented invariant: key lengths, SS2022 NAT timeout vs replay window (also legacy field), MTU 1279/1280, batch sizes 1024/1025, channel capacity 63/64, unknown protocol/mode/policy/field, dangling and duplicate names, tunnel address forms, client server-address forms (endpoint / split addresses vs the networks enabled); loaded with the real Config.Manager after strict decoding; class = (mutation, expectation, outcome)")
 	ms := mutations()
 	var accepts []int
 	for i, m := range ms {
